@@ -130,7 +130,8 @@ using Runner = Outcome (*)(const std::string &, const std::vector<std::size_t> &
 
 /// all single cuts + byte-wise + random multi-cuts of one generated stream through `run`
 void segmentationProperty(pbt::Src &src, pbt::Case &c, const std::string &side, bool masked,
-                          Outcome (*run)(const std::string &, const std::vector<std::size_t> &))
+                          Outcome (*run)(const std::string &, const std::vector<std::size_t> &),
+                          Outcome (*runWithUpgrade)(const std::string &, const std::vector<std::size_t> &) = nullptr, const std::string &upgradeResponse = std::string())
 {
   c18::GenOpts go;
   go.masked = masked;
@@ -164,6 +165,47 @@ void segmentationProperty(pbt::Src &src, pbt::Case &c, const std::string &side, 
   if (headerCut) c.label("cut inside a frame header");
   // the property's stated non-trivial rule
   if (s.fragmentedMsgs && s.controlInsideMsg && headerCut) c.nontrivial(pbt::hash64(s.wire));
+
+  if (runWithUpgrade)
+  {
+    // The opening handshake as part of the segmentation: the endpoint is still waiting for the
+    // upgrade response and gets response + stream as one byte sequence. A server may greet or
+    // ping in the same write as its 101; nothing else follows, so whatever the endpoint leaves
+    // unprocessed here stays unprocessed.
+    const std::string all = upgradeResponse + s.wire;
+    const std::size_t H = upgradeResponse.size();
+    auto judgeUp = [&](const std::vector<std::size_t> &cutsUp, const std::string &seg)
+    {
+      Outcome o = runWithUpgrade(all, cutsUp);
+      if (!o.threw && o.connectCallbacks != 1)
+      {
+        c.fail("C18/" + side + "/connect-callback-count", pbt::Fmt() << "valid 101 response, connect callback fired " << o.connectCallbacks << " times [" << seg << "]");
+        return false;
+      }
+      return judge(c, side, s, o, seg);
+    };
+    if (!judgeUp({}, "101 response and the whole stream in one read")) return;
+    if (!s.wire.empty() && !judgeUp({H}, "101 response alone, then the whole stream")) return;
+    std::vector<std::size_t> inside = {H - 1, H - 2, H - 4, 1};
+    for (int i = 0; i < 3; ++i) inside.push_back(static_cast<std::size_t>(src.range(1, static_cast<std::int64_t>(H) - 1)));
+    for (std::size_t cut : inside)
+      if (!judgeUp({cut}, "101 response cut at byte " + std::to_string(cut) + " of " + std::to_string(H) + ", its tail and the whole stream in one read")) return;
+    std::size_t shown = 0;
+    for (std::size_t i = 0; i < s.frames.size() && shown < 4; ++i)
+    {
+      std::size_t end = i + 1 < s.starts.size() ? s.starts[i + 1] : s.wire.size();
+      if (end == s.wire.size()) break;
+      ++shown;
+      if (!judgeUp({H + end}, "101 response and the first " + std::to_string(i + 1) + " frame(s) in one read, then the rest")) return;
+      if (end > s.starts[i] + 1 && !judgeUp({H + end - 1}, "101 response and the first " + std::to_string(i + 1) + " frame(s) but one byte in one read, then the rest")) return;
+    }
+    for (int k = 0; k < 2; ++k)
+    {
+      auto mc = c18::multiCut(src, all.size(), 8);
+      if (!judgeUp(mc, "handshake + stream " + showCuts(mc))) return;
+    }
+    c.label("opening handshake part of the segmentation");
+  }
 }
 
 } // namespace
@@ -359,7 +401,9 @@ PBT_PROPERTY(server_segments)
 PBT_PROPERTY(client_segments)
 {
 #ifdef JOEGEN_IORA_VERIF_WS_CLIENT_PROBE
-  segmentationProperty(src, c, "client", false, runClient);
+  segmentationProperty(
+    src, c, "client", false, [](const std::string &w, const std::vector<std::size_t> &cuts) { return runClient(w, cuts); },
+    [](const std::string &w, const std::vector<std::size_t> &cuts) { return runClient(w, cuts, true); }, inprocUpgradeResponse());
 #else
   c.label("hook H3 (hooks/C18-ws-client-probe.diff) not applied: client data path not reachable in-process");
 #endif
@@ -811,14 +855,21 @@ bool sentinelOrVerdict(const std::string &rx, const std::string &sentinel, std::
 }
 
 /// write the stream segment by segment, performing the application sends where the plan says
-LoopResult driveLoop(const Stream &s, const LoopPlan &plan, c18net::RawConn &conn, const LoopEndpoint &ep)
+/// `startOffset`: that many bytes of the stream already went out in the same write as the opening
+/// handshake; the plan's cuts before it are void
+LoopResult driveLoop(const Stream &s, const LoopPlan &plan, c18net::RawConn &conn, const LoopEndpoint &ep, std::size_t startOffset = 0)
 {
   LoopResult r;
-  std::size_t opi = 0, from = 0, appIdx = 0, certainData = 0;
-  const std::size_t nseg = plan.cuts.size() + 1;
+  std::size_t opi = 0, from = startOffset, appIdx = 0, certainData = 0;
+  std::vector<std::size_t> bounds; // end offsets of the segments still to be written
+  for (std::size_t cut : plan.cuts)
+    if (cut > startOffset) bounds.push_back(cut);
+  if (s.wire.size() > startOffset) bounds.push_back(s.wire.size());
+  if (s.triggerEnd != std::string::npos && startOffset >= s.triggerEnd) r.closing = true;
+  const std::size_t nseg = bounds.size();
   for (std::size_t seg = 0; seg <= nseg; ++seg)
   {
-    while (opi < plan.ops.size() && plan.ops[opi].beforeSegment <= seg)
+    while (opi < plan.ops.size() && (plan.ops[opi].beforeSegment <= seg || seg == nseg))
     {
       const auto &op = plan.ops[opi++];
       AppSend a;
@@ -843,7 +894,7 @@ LoopResult driveLoop(const Stream &s, const LoopPlan &plan, c18net::RawConn &con
       }
     }
     if (seg == nseg) break;
-    std::size_t to = seg < plan.cuts.size() ? plan.cuts[seg] : s.wire.size();
+    std::size_t to = bounds[seg];
     if (s.triggerEnd != std::string::npos && to >= s.triggerEnd) r.closing = true;
     if (!conn.writeSegment(std::string_view(s.wire).substr(from, to - from)))
     {
@@ -853,6 +904,110 @@ LoopResult driveLoop(const Stream &s, const LoopPlan &plan, c18net::RawConn &con
     from = to;
   }
   return r;
+}
+
+/// how much of the stream travels in the same write as the opening handshake
+struct Coalesce
+{
+  std::size_t prefixLen = 0; // bytes of the stream behind the 101 response / the upgrade request
+  int cutPermille = 0;       // client side: the 101 response itself is cut there (0: not cut)
+};
+
+/// end offsets of the frames whose processing is observable from outside: a ping (pong), a close
+/// (echo), a data frame that completes a message (delivery, or 1007 for invalid text)
+std::vector<std::size_t> observableFrameEnds(const Stream &s)
+{
+  std::vector<std::size_t> ends;
+  for (std::size_t i = 0; i < s.frames.size(); ++i)
+  {
+    const auto &f = s.frames[i];
+    bool data = f.opcode == refws::OpText || f.opcode == refws::OpBinary || f.opcode == refws::OpCont;
+    if (f.opcode == refws::OpPing || f.opcode == refws::OpClose || (data && f.fin)) ends.push_back(i + 1 < s.starts.size() ? s.starts[i + 1] : s.wire.size());
+    if (f.opcode == refws::OpClose) break;
+  }
+  return ends;
+}
+
+/// frameAligned (toward the server): only whole frames, the last of them observable - the server
+/// drains what followed the upgrade request on a worker thread, so the peer has to see the effect
+/// before it may send more (a conforming client would not send early at all)
+Coalesce drawCoalesce(pbt::Src &src, const Stream &s, bool frameAligned)
+{
+  Coalesce co;
+  if (!src.coin()) return co;
+  std::vector<std::size_t> ends = observableFrameEnds(s);
+  switch (src.weighted({5, 2, frameAligned ? 0 : 2}))
+  {
+  case 0:
+    if (!ends.empty()) co.prefixLen = ends[static_cast<std::size_t>(src.range(0, static_cast<std::int64_t>(ends.size()) - 1))];
+    break;
+  case 1:
+    if (!frameAligned || (!ends.empty() && ends.back() == s.wire.size())) co.prefixLen = s.wire.size();
+    else if (!ends.empty()) co.prefixLen = ends.back();
+    break;
+  default: co.prefixLen = static_cast<std::size_t>(src.range(1, static_cast<std::int64_t>(std::max<std::size_t>(1, s.wire.size())))); break;
+  }
+  if (co.prefixLen > s.wire.size()) co.prefixLen = s.wire.size();
+  // a close frame behind the 101 is only judged when response + frames are certainly ONE read
+  if (!frameAligned && s.hasClose && co.prefixLen > s.starts.back() && co.prefixLen > 16000) co.prefixLen = s.starts.back();
+  if (!frameAligned && src.coin(1, 3)) co.cutPermille = static_cast<int>(src.range(1, 999));
+  // toward the server the HTTP layer looks for the end of a further request in what follows
+  if (frameAligned && s.wire.substr(0, co.prefixLen).find("\r\n\r\n") != std::string::npos) co.prefixLen = 0;
+  return co;
+}
+
+/// what the frames that lie completely inside the prefix must cause (reference model)
+struct PrefixEffects
+{
+  std::size_t msgs = 0, pongs = 0;
+  bool close = false;
+  bool any() const { return msgs || pongs || close; }
+};
+PrefixEffects effectsOfPrefix(const Stream &s, std::size_t prefixLen)
+{
+  std::vector<refws::Frame> in;
+  for (std::size_t i = 0; i < s.frames.size(); ++i)
+  {
+    std::size_t end = i + 1 < s.starts.size() ? s.starts[i + 1] : s.wire.size();
+    if (end > prefixLen) break;
+    in.push_back(s.frames[i]);
+  }
+  refws::Model m = refws::modelFrames(in);
+  PrefixEffects e;
+  e.msgs = m.delivered.size();
+  for (std::size_t i = 0; i < m.framesModelled && i < in.size(); ++i)
+    if (in[i].opcode == refws::OpPing) ++e.pongs;
+  e.close = m.closed || m.invalidText;
+  return e;
+}
+
+std::size_t countPongs(const std::string &rx)
+{
+  c18net::WireFrames w = c18net::decodeAll(rx);
+  std::size_t n = 0;
+  for (auto &f : w.frames)
+    if (f.opcode == refws::OpPong) ++n;
+  return n;
+}
+
+/// The peer stays SILENT behind the handshake write and waits for what the frames in it must
+/// cause. An endpoint that leaves them in a buffer "for the next read" never gets that read.
+template <class MsgCount>
+bool awaitPrefixEffects(pbt::Case &c, const std::string &side, c18net::RawConn &conn, MsgCount deliveredSoFar, const PrefixEffects &e, const std::string &how,
+                        double timeoutSec = 30.0)
+{
+  if (!e.any()) return true;
+  bool ok = conn.readUntil([&] { return deliveredSoFar() >= e.msgs && countPongs(conn.rx) >= e.pongs && (!e.close || wireHasClose(conn.rx)); }, timeoutSec);
+  if (ok)
+  {
+    c.label("frames in the same write as the opening handshake were processed without further input");
+    return true;
+  }
+  c.failTimed("C18/" + side + "/stalled-behind-handshake",
+              pbt::Fmt() << how << ": " << deliveredSoFar() << " of " << e.msgs << " messages delivered, " << countPongs(conn.rx) << " of " << e.pongs << " pings answered"
+                         << (e.close ? (wireHasClose(conn.rx) ? ", close frame sent" : ", NO close frame") : "") << " after " << timeoutSec
+                         << " s without further input from the peer");
+  return false;
 }
 
 void splitPings(const Stream &s, bool synced, bool appClosed, std::vector<std::string> &required, std::vector<std::string> &optional)
@@ -920,7 +1075,8 @@ void labelPlan(pbt::Case &c, const Stream &s, const LoopPlan &plan, const LoopRe
 namespace
 {
 /// raw connection to the loopback server incl. opening handshake; false => verdict already set
-bool connectAndUpgrade(pbt::Case &c, LoopServer &srv, c18net::RawConn &conn, const std::string &key, ws::SessionId &sid, bool fixedCase = false)
+bool connectAndUpgrade(pbt::Case &c, LoopServer &srv, c18net::RawConn &conn, const std::string &key, ws::SessionId &sid, bool fixedCase = false,
+                       const std::string &extra = std::string())
 {
   // fixedCase: a regression judged in the replay tier, where a bounded wait is not re-run 3x;
   // a handshake that does not complete in time is reported as inconclusive there
@@ -938,7 +1094,7 @@ bool connectAndUpgrade(pbt::Case &c, LoopServer &srv, c18net::RawConn &conn, con
   }
   std::string why;
   bool timedOut = false;
-  bool ok = c18net::clientHandshake(conn, key, why, nullptr, &timedOut);
+  bool ok = c18net::clientHandshake(conn, key, why, nullptr, &timedOut, extra);
   if (!srv.tookIt(before, sid))
   {
     // nobody upgraded on OUR server: either it never saw the connection (a foreign listener shares
@@ -955,6 +1111,7 @@ bool connectAndUpgrade(pbt::Case &c, LoopServer &srv, c18net::RawConn &conn, con
   }
   conn.peerFd = c18net::findPeerFd(conn.fd);
   if (conn.peerFd >= 0) c.label("read barrier exact (endpoint descriptor found)");
+  if (!extra.empty()) conn.awaitRead();
   return true;
 }
 } // namespace
@@ -975,12 +1132,24 @@ PBT_PROPERTY(server_wire)
   go.allowBig = src.coin(1, 10);
   Stream s = c18::genStream(src, go);
   LoopPlan plan = drawPlan(src, s, true);
-  c.describe("server <- " + s.describe() + " | " + describePlan(plan));
+  Coalesce co = drawCoalesce(src, s, true);
+  c.describe(pbt::Fmt() << "server <- " << s.describe() << " | " << describePlan(plan)
+                        << (co.prefixLen ? " | the first " + std::to_string(co.prefixLen) + " bytes in the same write as the upgrade request" : std::string()));
   labelStream(c, s);
 
   c18net::RawConn conn;
   ws::SessionId sid = 0;
-  if (!connectAndUpgrade(c, *srv, conn, randomKey(src), sid)) return;
+  if (!connectAndUpgrade(c, *srv, conn, randomKey(src), sid, false, s.wire.substr(0, co.prefixLen))) return;
+  if (co.prefixLen)
+  {
+    c.label("upgrade request and first frames in one write");
+    auto delivered = [&]
+    {
+      std::lock_guard<std::mutex> g(srv->log.m);
+      return srv->log.o.msgs.size();
+    };
+    if (!awaitPrefixEffects(c, "server", conn, delivered, effectsOfPrefix(s, co.prefixLen), "upgrade request + " + std::to_string(co.prefixLen) + " bytes of frames in one write")) return;
+  }
 
   LoopEndpoint ep;
   ep.appSend = [&](const AppSend &a)
@@ -993,7 +1162,7 @@ PBT_PROPERTY(server_wire)
     default: srv->sendClose(sid, 1001, "going away"); break;
     }
   };
-  LoopResult r = driveLoop(s, plan, conn, ep);
+  LoopResult r = driveLoop(s, plan, conn, ep, co.prefixLen);
   if (r.connLost && !r.closing)
   {
     c.fail("C18/server/connection-lost", "the server dropped the connection in the middle of a valid stream");
@@ -1056,12 +1225,16 @@ struct ClientUnderTest
   std::shared_ptr<SharedLog> log = std::make_shared<SharedLog>();
   c18net::RawConn conn;
   bool timed = false; // the failure is a bounded wait (connect() gave up), not a wrong answer
+  // The peer's close frame travelled in the same write as the 101 response and was processed
+  // before connect() looked at the state again: connect() reports "not connected" and tears down.
+  // Legitimate; the exchange is then over and only the callbacks can be judged.
+  bool closedDuringConnect = false;
 
   /// create a client, let it connect to the raw listener and complete the opening handshake
-  bool start(std::string &why, bool &harnessSide)
+  bool start(std::string &why, bool &harnessSide, const std::string &tail = std::string(), int cutPermille = 0, bool closeInTail = false)
   {
     create();
-    return connectOnce(why, harnessSide);
+    return connectOnce(why, harnessSide, tail, cutPermille, closeInTail);
   }
 
   /// the client object and its callbacks (set once, before the first connect(): precondition M-1)
@@ -1092,15 +1265,27 @@ struct ClientUnderTest
                      std::lock_guard<std::mutex> g(lg->m);
                      ++lg->o.errors;
                    });
+    // CONNECTING is announced by doConnect() on the connecting thread, after connect() has torn the
+    // old transport down (its I/O thread is joined) and before the new one exists: the exact point
+    // where the log of the previous connection ends. (Frames may arrive together with the 101,
+    // i.e. before connect() returns - clearing afterwards would be too late.)
+    cl->setOnStateChange([lg](ws::WebSocketState st)
+                         {
+                           if (st != ws::WebSocketState::CONNECTING) return;
+                           std::lock_guard<std::mutex> g(lg->m);
+                           lg->o = Outcome{};
+                         });
   }
 
   /// one connect() of the SAME client object to the raw listener incl. opening handshake. May be
   /// called again after the previous connection ended in whatever way; connect() itself tears the
   /// old transport down (joining its I/O thread), so the log can be cleared right after it returns.
-  bool connectOnce(std::string &why, bool &harnessSide)
+  /// `tail`/`cutPermille`: see RawListener::acceptAndUpgrade (frames in the same write as the 101)
+  bool connectOnce(std::string &why, bool &harnessSide, const std::string &tail = std::string(), int cutPermille = 0, bool closeInTail = false)
   {
     harnessSide = false;
     timed = false;
+    closedDuringConnect = false;
     c18net::RawListener &lst = rawListener();
     if (lst.port <= 0)
     {
@@ -1111,7 +1296,7 @@ struct ClientUnderTest
     conn.reset();
     bool accepted = false;
     std::string acceptWhy;
-    std::thread acceptor([&] { accepted = lst.acceptAndUpgrade(conn, acceptWhy); });
+    std::thread acceptor([&] { accepted = lst.acceptAndUpgrade(conn, acceptWhy, 20.0, tail, cutPermille); });
     bool connected = false;
     try
     {
@@ -1130,6 +1315,11 @@ struct ClientUnderTest
       harnessSide = !connected; // nothing arrived and the client says so too: environment
       return false;
     }
+    if (!connected && closeInTail && outcome().closeCallbacks > 0)
+    {
+      closedDuringConnect = true; // the close callback ran: everything in front of the close frame was processed
+      return true;
+    }
     if (!connected)
     {
       why = "the raw server answered 101 with the correct Sec-WebSocket-Accept but connect() returned false (30 s timeout)";
@@ -1137,11 +1327,13 @@ struct ClientUnderTest
       return false;
     }
     conn.peerFd = c18net::findPeerFd(conn.fd);
-    {
-      std::lock_guard<std::mutex> g(log->m);
-      log->o = Outcome{}; // nothing of the new connection has been sent yet
-    }
+    if (!tail.empty()) conn.awaitRead();
     return true;
+  }
+  std::size_t deliveredSoFar()
+  {
+    std::lock_guard<std::mutex> g(log->m);
+    return log->o.msgs.size();
   }
   Outcome outcome()
   {
@@ -1169,10 +1361,10 @@ LoopEndpoint clientEndpoint(ClientUnderTest &cut)
 /// One complete exchange on the client's current connection, ended by the close handshake and
 /// disconnect(): the stream is written segment by segment with the application sends of the plan,
 /// then deliveries and the wire capture are judged (the oracle of client_wire). false => verdict set.
-bool exchangeAndClose(pbt::Src &src, pbt::Case &c, ClientUnderTest &cut, const Stream &s, const LoopPlan &plan, const std::string &where)
+bool exchangeAndClose(pbt::Src &src, pbt::Case &c, ClientUnderTest &cut, const Stream &s, const LoopPlan &plan, const std::string &where, std::size_t startOffset = 0)
 {
   c18net::RawConn &conn = cut.conn;
-  LoopResult r = driveLoop(s, plan, conn, clientEndpoint(cut));
+  LoopResult r = driveLoop(s, plan, conn, clientEndpoint(cut), startOffset);
   if (r.connLost && !r.closing)
   {
     c.fail("C18/client/connection-lost", "the client dropped the connection in the middle of a valid stream" + where);
@@ -1235,6 +1427,37 @@ void excludeDataAfterClose(pbt::Case &c, LoopPlan &plan)
   plan.ops = kept;
 }
 
+std::string describeCoalesce(const Coalesce &co)
+{
+  if (!co.prefixLen && !co.cutPermille) return std::string();
+  pbt::Fmt o;
+  o << " | in the same write as the 101 response: the first " << co.prefixLen << " bytes of the stream";
+  if (co.cutPermille) o << " (the response itself cut at " << co.cutPermille / 10.0 << " %, its tail goes with them)";
+  return o.str();
+}
+
+bool closeInPrefix(const Stream &s, const Coalesce &co) { return s.hasClose && co.prefixLen == s.wire.size(); }
+
+/// connect() reported failure because the peer's close frame (same write as the 101) had already
+/// been processed: judge the callbacks exactly, the wire leniently (the teardown may drop replies)
+void judgeClosedDuringConnect(pbt::Case &c, ClientUnderTest &cut, const Stream &s, const std::string &where)
+{
+  c.label("peer's close frame in the handshake write: connect() reported 'not connected'");
+  cut.conn.readUntil([&] { return cut.conn.eof; }, 30.0);
+  if (!judge(c, "client", s, cut.outcome(), "101 response and the complete stream incl. close in one write" + where)) return;
+  std::vector<std::string> none;
+  judgeWire(c, "client", cut.conn.rx, cut.conn.eof, none, s.pings, {}, "", true);
+}
+
+bool awaitClientPrefix(pbt::Case &c, ClientUnderTest &cut, const Stream &s, const Coalesce &co, const std::string &where, double timeoutSec = 30.0)
+{
+  if (!co.prefixLen) return true;
+  c.label("101 response and first frames in one write");
+  return awaitPrefixEffects(
+    c, "client", cut.conn, [&] { return cut.deliveredSoFar(); }, effectsOfPrefix(s, co.prefixLen),
+    "101 response + " + std::to_string(co.prefixLen) + " bytes of frames in one write" + where, timeoutSec);
+}
+
 bool reportStartFailure(pbt::Case &c, ClientUnderTest &cut, const std::string &why, bool harnessSide, bool fixedCase = false)
 {
   if (harnessSide || (fixedCase && cut.timed)) c.inconclusive(why);
@@ -1254,19 +1477,26 @@ PBT_PROPERTY(client_wire)
   Stream s = c18::genStream(src, go);
   LoopPlan plan = drawPlan(src, s, true);
   excludeDataAfterClose(c, plan);
-  c.describe("client <- " + s.describe() + " | " + describePlan(plan));
+  Coalesce co = drawCoalesce(src, s, false);
+  c.describe("client <- " + s.describe() + " | " + describePlan(plan) + describeCoalesce(co));
   labelStream(c, s);
 
   ClientUnderTest cut;
   std::string why;
   bool harnessSide = false;
-  if (!cut.start(why, harnessSide))
+  if (!cut.start(why, harnessSide, s.wire.substr(0, co.prefixLen), co.cutPermille, closeInPrefix(s, co)))
   {
     reportStartFailure(c, cut, why, harnessSide);
     return;
   }
+  if (cut.closedDuringConnect)
+  {
+    judgeClosedDuringConnect(c, cut, s, "");
+    return;
+  }
   if (cut.conn.peerFd >= 0) c.label("read barrier exact (endpoint descriptor found)");
-  exchangeAndClose(src, c, cut, s, plan, "");
+  if (!awaitClientPrefix(c, cut, s, co, "")) return;
+  exchangeAndClose(src, c, cut, s, plan, "", co.prefixLen);
 }
 
 // ---------------------------------------------------------------------------- client_reuse
@@ -1298,10 +1528,10 @@ const char *endingName(Ending e)
 }
 
 /// short exchange on an intermediate connection, left OPEN: judged at the sentinel pong
-bool exchangeKeepOpen(pbt::Src &src, pbt::Case &c, ClientUnderTest &cut, const Stream &s, const LoopPlan &plan, const std::string &where)
+bool exchangeKeepOpen(pbt::Src &src, pbt::Case &c, ClientUnderTest &cut, const Stream &s, const LoopPlan &plan, const std::string &where, std::size_t startOffset = 0)
 {
   c18net::RawConn &conn = cut.conn;
-  LoopResult r = driveLoop(s, plan, conn, clientEndpoint(cut));
+  LoopResult r = driveLoop(s, plan, conn, clientEndpoint(cut), startOffset);
   if (r.connLost)
   {
     c.fail("C18/client/connection-lost", "the client dropped the connection in the middle of a valid stream" + where);
@@ -1413,11 +1643,6 @@ PBT_PROPERTY(client_reuse)
     const std::string where = " [connection " + std::to_string(k + 1) + " of the same client object; earlier ones ended by: " + (k ? plot : std::string("-")) + "]";
     // sometimes the application tidies up itself before it connects again
     if (k > 0 && src.coin(1, 3)) cut.cl->disconnect();
-    if (!cut.connectOnce(why, harnessSide))
-    {
-      reportStartFailure(c, cut, why + where, harnessSide);
-      return;
-    }
     c18::GenOpts go;
     go.masked = false;
     go.allowBig = false;
@@ -1427,18 +1652,32 @@ PBT_PROPERTY(client_reuse)
     Stream s = c18::genStream(src, go);
     LoopPlan plan = drawPlan(src, s, last);
     excludeDataAfterClose(c, plan);
+    Coalesce co = drawCoalesce(src, s, false);
     if (last)
-    {
       c.describe(pbt::Fmt() << "one client object, " << connections << " connections; earlier ones ended by: " << plot << "; last: client <- " << s.describe() << " | "
-                            << describePlan(plan));
-      labelStream(c, s);
-      c.nontrivial(pbt::hash64(plot + s.wire + describePlan(plan)));
-      exchangeAndClose(src, c, cut, s, plan, where);
+                            << describePlan(plan) << describeCoalesce(co));
+    else
+      c.describe(pbt::Fmt() << "one client object, connection " << k + 1 << " of " << connections << " (endings: " << plot << "): client <- " << s.describe() << " | "
+                            << describePlan(plan) << describeCoalesce(co));
+    if (!cut.connectOnce(why, harnessSide, s.wire.substr(0, co.prefixLen), co.cutPermille, closeInPrefix(s, co)))
+    {
+      reportStartFailure(c, cut, why + where, harnessSide);
       return;
     }
-    c.describe(pbt::Fmt() << "one client object, connection " << k + 1 << " of " << connections << " (endings: " << plot << "): client <- " << s.describe() << " | "
-                          << describePlan(plan));
-    if (!exchangeKeepOpen(src, c, cut, s, plan, where)) return;
+    if (cut.closedDuringConnect)
+    {
+      judgeClosedDuringConnect(c, cut, s, where);
+      return;
+    }
+    if (!awaitClientPrefix(c, cut, s, co, where)) return;
+    if (last)
+    {
+      labelStream(c, s);
+      c.nontrivial(pbt::hash64(plot + s.wire + describePlan(plan)));
+      exchangeAndClose(src, c, cut, s, plan, where, co.prefixLen);
+      return;
+    }
+    if (!exchangeKeepOpen(src, c, cut, s, plan, where, co.prefixLen)) return;
     c.label(std::string("previous connection ended by: ") + endingName(endings[static_cast<std::size_t>(k)]));
     applyEnding(src, cut, endings[static_cast<std::size_t>(k)]);
   }
@@ -2582,7 +2821,7 @@ struct FixedSrc : pbt::Src
   std::string blob(std::size_t) override { return {}; }
 };
 
-Stream fixedClientStream(const std::string &tag, bool withClose)
+Stream fixedClientStream(const std::string &tag, bool withClose, bool masked = false)
 {
   Stream s;
   auto add = [&](std::uint8_t op, bool fin, const std::string &pl)
@@ -2591,6 +2830,8 @@ Stream fixedClientStream(const std::string &tag, bool withClose)
     f.opcode = op;
     f.fin = fin;
     f.payload = pl;
+    f.masked = masked;
+    if (masked) f.key[0] = 0x5a, f.key[1] = 0xa5, f.key[2] = 0x0f, f.key[3] = 0xf0;
     s.add(f);
   };
   add(refws::OpText, false, tag + "-he");
@@ -2648,6 +2889,89 @@ PBT_REGRESSION(client_reuse_after_failed_receive)
     if (!exchangeKeepOpen(src, c, cut, s, plan, where)) return;
     applyEnding(src, cut, endings[k]);
   }
+}
+
+// A server that greets in the same write as its 101 response and then stays silent: the frames
+// that arrived together with the response must be processed without any further input.
+PBT_REGRESSION(client_frames_with_101_inprocess)
+{
+#ifdef JOEGEN_IORA_VERIF_WS_CLIENT_PROBE
+  Stream s = fixedClientStream("greet", true);
+  const std::string resp = inprocUpgradeResponse(), all = resp + s.wire;
+  c.describe("client (awaiting the upgrade response) <- 101 response + " + s.describe());
+  std::vector<std::vector<std::size_t>> segs = {{}, {resp.size()}, {resp.size() - 2}, {17}, {resp.size() + 1}, {resp.size() + s.starts[2]}};
+  for (auto &cuts : segs)
+  {
+    Outcome o = runClient(all, cuts, true);
+    std::string seg = cuts.empty() ? std::string("101 response and the whole stream in one read") : "handshake + stream " + showCuts(cuts);
+    if (!o.threw && o.connectCallbacks != 1)
+    {
+      c.fail("C18/client/connect-callback-count", pbt::Fmt() << "connect callback fired " << o.connectCallbacks << " times [" << seg << "]");
+      return;
+    }
+    if (!judge(c, "client", s, o, seg)) return;
+  }
+#endif
+}
+
+PBT_REGRESSION(client_frames_with_101)
+{
+  pbt::watchdog(240, "C18/client/loopback-stalled");
+  FixedSrc src;
+  ClientUnderTest cut;
+  std::string why;
+  bool harnessSide = false;
+  Stream s = fixedClientStream("greet", false);
+  Coalesce co;
+  co.prefixLen = s.wire.size(); // TEXT(!fin) PING CONT(fin) BIN, all behind the 101 in one write
+  c.describe("client <- " + s.describe() + describeCoalesce(co) + ", then silence");
+  if (!cut.start(why, harnessSide, s.wire.substr(0, co.prefixLen), 0))
+  {
+    reportStartFailure(c, cut, why, harnessSide, true);
+    return;
+  }
+  if (!awaitClientPrefix(c, cut, s, co, "", 90.0)) return;
+  exchangeAndClose(src, c, cut, s, LoopPlan{}, "", co.prefixLen);
+}
+
+// The counterpart on the server: the upgrade request and the first frames in one write (HttpServer
+// documents that it hands what followed the request in the same segment to the upgraded handler).
+PBT_REGRESSION(server_frames_with_upgrade_request)
+{
+  pbt::watchdog(240, "C18/server/loopback-stalled");
+  FixedSrc src;
+  std::string why;
+  LoopServer *srv = loopServer(why);
+  if (!srv)
+  {
+    c.inconclusive("could not start a WebSocketServer: " + why);
+    return;
+  }
+  Stream s = fixedClientStream("early", false, true);
+  c.describe("server <- upgrade request + " + s.describe() + " in one write, then silence");
+  c18net::RawConn conn;
+  ws::SessionId sid = 0;
+  if (!connectAndUpgrade(c, *srv, conn, "dGhlIHNhbXBsZSBub25jZQ==", sid, true, s.wire)) return;
+  auto delivered = [&]
+  {
+    std::lock_guard<std::mutex> g(srv->log.m);
+    return srv->log.o.msgs.size();
+  };
+  if (!awaitPrefixEffects(c, "server", conn, delivered, effectsOfPrefix(s, s.wire.size()), "upgrade request + all frames in one write", 90.0)) return;
+  conn.writeSegment(refws::encode(maskedFrame(src, refws::OpClose, std::string("\x03\xe8", 2), true)));
+  conn.readUntil([&] { return wireHasClose(conn.rx); }, kCloseWait);
+  conn.shutdownWrite();
+  conn.readUntil([&] { return conn.eof; }, 30.0);
+  Outcome o;
+  {
+    std::lock_guard<std::mutex> g(srv->log.m);
+    o = srv->log.o;
+  }
+  Stream judged = s;
+  judged.hasClose = true;
+  judged.closeCode = 1000;
+  if (!judge(c, "server", judged, o, "upgrade request + all frames in one write")) return;
+  judgeWire(c, "server", conn.rx, conn.eof, s.pings, {}, {}, "", false);
 }
 
 PBT_REGRESSION(server_ping_length_code_126)
